@@ -99,6 +99,21 @@ enum Tok {
     R,
 }
 
+/// The token text of an operation (for failure messages).
+fn desc(tok: &Tok) -> String {
+    let e = |exp: &Exp| match exp { None => "*".to_string(), Some(m) => hex(m) };
+    match tok {
+        Tok::A { i, meta, data } => format!("A,{i},{},{}", hex(meta), show_data(data)),
+        Tok::Z => "Z".into(),
+        Tok::P { i, meta, data } => format!("P,{i},{},{}", hex(meta), show_data(data)),
+        Tok::U { i, meta, data, exp } => format!("U,{i},{},{},{}", hex(meta), show_data(data), e(exp)),
+        Tok::D { i, exp } => format!("D,{i},{}", e(exp)),
+        Tok::F { i } => format!("F,{i}"),
+        Tok::G { i, exp } => format!("G,{i},{}", e(exp)),
+        Tok::R => "R".into(),
+    }
+}
+
 fn parse_tok(s: &str) -> Option<Tok> {
     let f: Vec<&str> = s.split(',').collect();
     Some(match f.as_slice() {
@@ -454,6 +469,7 @@ fn run_case<const N: usize>(
     let mut prev_dump: Option<Dump> = None;
 
     for tok in toks {
+        let tokd = desc(tok);
         // What a map would answer.
         let expected: String = match tok {
             Tok::A { i, meta, data } | Tok::P { i, meta, data } => {
@@ -560,13 +576,13 @@ fn run_case<const N: usize>(
             Ok(s) => s,
             Err(panic) => {
                 out.outs.push("panic".into());
-                out.failure = Some(fail("panic", format!("{tok:?} panicked: {panic}")));
+                out.failure = Some(fail("panic", format!("{tokd} panicked: {panic}")));
                 break
             }
         };
         if observed != expected {
             out.failure = Some(fail("map-result", format!(
-                "{tok:?}: the archive answered `{observed}`, a map answers `{expected}`"
+                "{tokd}: the archive answered `{observed}`, a map answers `{expected}`"
             )));
         }
 
@@ -602,11 +618,11 @@ fn run_case<const N: usize>(
 
         if out.failure.is_none() {
             if let Some((class, text)) = errors.first() {
-                out.failure = Some(fail(class, format!("after {tok:?}: {text}")));
+                out.failure = Some(fail(class, format!("after {tokd}: {text}")));
             }
             else if !out.verify_ok {
                 out.failure = Some(fail("verify-failed", format!(
-                    "after {tok:?}: verify() = {:?}", verified.map(|r| r.map(|_| ()).map_err(arch_err))
+                    "after {tokd}: verify() = {:?}", verified.map(|r| r.map(|_| ()).map_err(arch_err))
                 )));
             }
         }
@@ -627,13 +643,13 @@ fn run_case<const N: usize>(
             match listed {
                 Ok(Ok(got)) => if got != want {
                     out.failure = Some(fail("map-content", format!(
-                        "after {tok:?}: objects() lists {} objects {:?}, the map has {} {:?}",
+                        "after {tokd}: objects() lists {} objects {:?}, the map has {} {:?}",
                         got.len(), got.iter().map(|x| hex(&x.0)).collect::<Vec<_>>(),
                         want.len(), want.iter().map(|x| hex(&x.0)).collect::<Vec<_>>()
                     )));
                 }
-                Ok(Err(e)) => out.failure = Some(fail("map-content", format!("after {tok:?}: objects() failed: {e}"))),
-                Err(p) => out.failure = Some(fail("panic", format!("after {tok:?}: objects() panicked: {p}"))),
+                Ok(Err(e)) => out.failure = Some(fail("map-content", format!("after {tokd}: objects() failed: {e}"))),
+                Err(p) => out.failure = Some(fail("panic", format!("after {tokd}: objects() panicked: {p}"))),
             }
         }
         if out.failure.is_none() {
@@ -647,12 +663,12 @@ fn run_case<const N: usize>(
                 match got {
                     Ok(Ok(got)) => if got != want {
                         out.failure = Some(fail("map-fetch", format!(
-                            "after {tok:?}: fetch({}) = {:?}, the map has {:?}", hex(name),
+                            "after {tokd}: fetch({}) = {:?}, the map has {:?}", hex(name),
                             got.as_ref().map(|d| show_data(d)), want.as_ref().map(|d| show_data(d))
                         )));
                     }
-                    Ok(Err(e)) => out.failure = Some(fail("map-fetch", format!("after {tok:?}: fetch({}) failed: {e}", hex(name)))),
-                    Err(p) => out.failure = Some(fail("panic", format!("after {tok:?}: fetch panicked: {p}"))),
+                    Ok(Err(e)) => out.failure = Some(fail("map-fetch", format!("after {tokd}: fetch({}) failed: {e}", hex(name)))),
+                    Err(p) => out.failure = Some(fail("panic", format!("after {tokd}: fetch panicked: {p}"))),
                 }
                 if out.failure.is_some() { break }
             }
